@@ -135,11 +135,11 @@ func (s *c17Stream) SetReadDeadline(t time.Time) error {
 	return nil
 }
 
-func (s *c17Stream) StreamID() quic.StreamID             { return 0 }
-func (s *c17Stream) Write(p []byte) (int, error)         { s.writes++; return len(p), nil }
-func (s *c17Stream) Close() error                        { s.closed = true; return nil }
-func (s *c17Stream) SetWriteDeadline(t time.Time) error  { return nil }
-func (s *c17Stream) SetDeadline(t time.Time) error       { _ = s.SetReadDeadline(t); return nil }
+func (s *c17Stream) StreamID() quic.StreamID            { return 0 }
+func (s *c17Stream) Write(p []byte) (int, error)        { s.writes++; return len(p), nil }
+func (s *c17Stream) Close() error                       { s.closed = true; return nil }
+func (s *c17Stream) SetWriteDeadline(t time.Time) error { return nil }
+func (s *c17Stream) SetDeadline(t time.Time) error      { _ = s.SetReadDeadline(t); return nil }
 
 // ---------------------------------------------------------------------------------------------
 // templates
@@ -152,6 +152,7 @@ type c17Template struct {
 	Port    string // port of the original destination used with this template
 	Bounds  []int  // structural boundaries (cuts are drawn from these +-1 for long templates)
 	Heavy   bool   // thorough tier only
+	Either  bool   // the property leaves it open whether ExpHost counts as "present": unchanged and ExpHost are both accepted
 }
 
 func c17U16(v int) []byte { return []byte{byte(v >> 8), byte(v)} }
@@ -313,6 +314,14 @@ func c17Templates() []c17Template {
 	rec := c17TLSRecord(0x16, 0x01, len(chMsg), chMsg)
 	ts = append(ts, c17Template{Name: "tls-sni-small", Data: append(append([]byte(nil), rec...), 0x14, 0x03, 0x03, 0x00), ExpHost: "sni.example.org", NeedLen: len(rec), Port: "443",
 		Bounds: []int{3, 5, 9, 5 + s0, 5 + s1, len(rec)}})
+	// declared record length one short of / one beyond the ClientHello: the name is in the bytes, the record is not a
+	// well-formed ClientHello record - either outcome is accepted for the destination, nothing may be lost
+	recM := c17TLSRecord(0x16, 0x01, len(chMsg)-1, chMsg)
+	ts = append(ts, c17Template{Name: "tls-declared-minus-1", Data: recM, ExpHost: "sni.example.org", NeedLen: len(recM) - 1, Port: "443", Either: true, Bounds: []int{3, 5, 9, len(recM) - 1}})
+	recP := c17TLSRecord(0x16, 0x01, len(chMsg)+1, append(append([]byte(nil), chMsg...), 0x00, 0x16))
+	ts = append(ts, c17Template{Name: "tls-declared-plus-1", Data: recP, ExpHost: "sni.example.org", NeedLen: len(recP) - 1, Port: "443", Either: true, Bounds: []int{3, 5, 9, len(recP) - 2, len(recP) - 1}})
+	// an application-data record (0x17) whose body happens to be a ClientHello
+	ts = append(ts, c17Template{Name: "tls-type17-hello-body", Data: c17TLSRecord(0x17, 0x03, len(chMsg), chMsg), ExpHost: "sni.example.org", NeedLen: 5 + len(chMsg), Port: "443", Either: true, Bounds: []int{3, 5, 9, 5 + s0, 5 + s1}})
 	noSNI, _, _ := c17ClientHello("")
 	recNo := c17TLSRecord(0x16, 0x03, len(noSNI), noSNI)
 	ts = append(ts, c17Template{Name: "tls-no-sni", Data: recNo, Port: "443", Bounds: []int{3, 5, 9, len(recNo)}})
@@ -326,6 +335,9 @@ func c17Templates() []c17Template {
 	addHTTP("http-host-last-no-body", "GET /a HTTP/1.0\r\nHost: last.example\r\n\r\n", "last.example", false)
 	addHTTP("http-no-host", "GET /index.html HTTP/1.1\r\nUser-Agent: c17\r\n\r\nHost: body.example\r\n\r\n", "", false)
 	addHTTP("http-host-ipv6-port", "GET / HTTP/1.1\r\nHost: [2001:db8::99]:8080\r\n\r\n", "2001:db8::99", false)
+	addHTTP("http-host-ipv6-no-port", "GET / HTTP/1.1\r\nHost: [2001:db8::99]\r\n\r\n", "2001:db8::99", false)
+	// absolute-form request target: its authority is the host the client asks for (RFC 7230 5.4), no Host header at all
+	addHTTP("http-absolute-uri", "GET http://abs.example/x HTTP/1.1\r\nAccept: */*\r\n\r\n", "abs.example", false)
 	addHTTP("http-letters-not-http", "Wait It's All Ohio? Always Has Been.", "", false)
 	addHTTP("http-header-unterminated", "GET / HTTP/1.1\r\nHost: never.example\r\nX-A: b\r\n", "", false)
 	pad := strings.Repeat("a", 4200)
@@ -369,6 +381,7 @@ type c17TCPCase struct {
 	Data     []byte `json:"data"`
 	ExpHost  string `json:"exp_host,omitempty"`
 	NeedLen  int    `json:"need_len,omitempty"`
+	Either   bool   `json:"either,omitempty"`
 	Cuts     []int  `json:"cuts,omitempty"`
 	FireAt   int    `json:"fire_at_read"` // -1 = never
 	WithData bool   `json:"fire_with_data,omitempty"`
@@ -394,6 +407,7 @@ func c17Filter(kind, addr string) utils.PortUnion {
 
 type c17TCPResult struct {
 	clauseID string // "" = holds
+	key      string // outcome part of the signature
 	detail   string
 	reads    int
 	hooked   bool
@@ -481,10 +495,12 @@ func c17RunTCPInner(c *c17TCPCase) (res c17TCPResult) {
 	if err != nil {
 		// handleTCPRequest closes the stream on a hook error: for a destination that passed Check there is
 		// no input for which aborting the flow is "transparent"
+		res.key = err.Error()
 		return fail("error-aborts-flow", "TCP returned error %q (the server closes the client's stream); consumed %d of %d bytes", err, st.pos, len(sent))
 	}
 	// (1) putback || unread == sent
 	if !bytes.Equal(putback, sent[:st.pos]) {
+		res.key = fmt.Sprintf("consumed=%d,putback=%d", st.pos, len(putback))
 		d := 0
 		for d < len(putback) && d < st.pos && putback[d] == sent[d] {
 			d++
@@ -499,13 +515,14 @@ func c17RunTCPInner(c *c17TCPCase) (res c17TCPResult) {
 	if len(st.deadlines) == 0 || st.deadlines[0].IsZero() {
 		return fail("deadline-not-armed", "no non-zero read deadline was set before sniffing")
 	}
-	if last := st.deadlines[len(st.deadlines)-1]; !last.IsZero() {
-		return fail("deadline-not-cleared", "the read deadline is still armed on return (last SetReadDeadline(%v), %d calls): the relay that follows dies when it fires", last.Format(time.RFC3339Nano), len(st.deadlines))
+	if !st.deadlines[len(st.deadlines)-1].IsZero() {
+		return fail("deadline-not-cleared", "the read deadline is still armed on return (%d SetReadDeadline calls, the last one non-zero): the relay that follows dies when it fires", len(st.deadlines))
 	}
 	if st.writes != 0 || st.closed {
 		return fail("stream-written-or-closed", "the sniffer wrote to (%d) or closed (%v) the client's stream", st.writes, st.closed)
 	}
 	// (3) destination
+	res.key = "dest=" + addr
 	newHost, newPort, perr := net.SplitHostPort(addr)
 	if perr != nil {
 		return fail("destination-malformed", "destination %q -> %q is no longer host:port (%v)", c.Addr, addr, perr)
@@ -517,7 +534,7 @@ func c17RunTCPInner(c *c17TCPCase) (res c17TCPResult) {
 	if c.ExpHost != "" && st.pos >= c.NeedLen {
 		want = net.JoinHostPort(c.ExpHost, origPort)
 	}
-	if addr != want {
+	if addr != want && !(c.Either && addr == c.Addr) {
 		if want == c.Addr {
 			return fail("rewritten-without-evidence", "destination %q -> %q, but the %d bytes delivered contain no complete Host header / server name (expected unchanged; host was %q, now %q)", c.Addr, addr, st.pos, origHost, newHost)
 		}
@@ -533,8 +550,11 @@ func c17Hex(b []byte) string {
 	return fmt.Sprintf("%x..(%d)..%x", b[:12], len(b), b[len(b)-8:])
 }
 
-func c17TCPSig(c *c17TCPCase, id string) string {
-	return fmt.Sprintf("tcp/%s/%s/cuts=%v,fire=%d,withdata=%v,end=%d,filter=%s,rd=%v,addr=%s,seterr=%v", c.Template, id, c.Cuts, c.FireAt, c.WithData, c.End, c.Filter, c.RD, c.Addr, c.SetErr)
+// c17TCPSig names a violation by template + violated clause + the observable outcome, not by the chunking: one
+// defect seen through many chunkings/deadline positions/configurations is one signature (the replay file holds one
+// complete case).
+func c17TCPSig(c *c17TCPCase, r *c17TCPResult) string {
+	return fmt.Sprintf("tcp/%s/%s/%s", c.Template, r.clauseID, r.key)
 }
 
 // ---------------------------------------------------------------------------------------------
@@ -569,7 +589,7 @@ func (l *c17Limiter) ok(key string) bool {
 		l.n = map[string]int{}
 	}
 	l.n[key]++
-	return l.n[key] <= 2
+	return l.n[key] <= 1
 }
 
 func c17EnumerateTCP(sh *evidence.Shard) {
@@ -581,18 +601,23 @@ func c17EnumerateTCP(sh *evidence.Shard) {
 	for _, t := range tmpls {
 		names = append(names, fmt.Sprintf("%s(%dB)", t.Name, len(t.Data)))
 	}
-	fullMax := 10
+	fullMax, cutsPrimary, cutsOther := 12, 2, 2
 	if th {
-		fullMax = 12
+		fullMax, cutsPrimary = 15, 3
 	}
 	p.Alphabet = map[string]any{
-		"templates":   names,
-		"splits":      fmt.Sprintf("all 2^(n-1) chunkings for streams of <= %d bytes; longer streams: every <=2-cut chunking over {1..8, each structural boundary -1/0/+1, n-1} (primary configurations) or <=1-cut (others, quick tier)", fullMax),
+		"templates": names,
+		"splits": fmt.Sprintf("all 2^(n-1) chunkings for streams of <= %d bytes; longer streams: every chunking with <= %d cuts (3 primary configurations) / <= %d cuts (the other hooked configurations) over {1..8, each structural boundary -1/0/+1, n-1}; the header-over-limit template: <= 1 / 0 cuts",
+			fullMax, cutsPrimary, cutsOther),
 		"deadline":    "fires at the k-th Read call for every k the sniffer reaches (pure timeout, or delivered together with that read's chunk), or never",
 		"end":         []string{"client idle: read blocks until the deadline", "client FIN: (0,EOF)", "FIN with the last chunk: (n,EOF)"},
 		"port_filter": []string{"nil", "contains the port", "excludes the port"}, "rewrite_domain": []bool{true, false},
-		"req_addr": []string{"10.1.2.3:<port>", "[2001:db8::7]:<port>", "orig.example.net:<port>"},
-		"timeout":  "Sniffer.Timeout 0 (default) with the nil filter, 1.5s with the others",
+		"req_addr":            []string{"10.1.2.3:<port>", "[2001:db8::7]:<port>", "orig.example.net:<port>"},
+		"timeout":             "Sniffer.Timeout 0 (default) with the nil filter, 1.5s with the others",
+		"set_deadline_fails":  "once per template x hooked configuration (unsplit stream)",
+		"unhooked_configs":    "configurations for which Check must be false (filter excludes the port; domain destination without RewriteDomain): one run per end mode, the stream must not be touched",
+		"primary_configs":     []string{"nil filter, RewriteDomain, IPv4", "filter contains port, no RewriteDomain, IPv6", "nil filter, RewriteDomain, domain"},
+		"structural_boundary": "3 (probe), 5 (TLS header), request line end, Host line start/value/end, header end, 4096-byte buffer refills, handshake header, server_name start/end, record end",
 	}
 	lim := &c17Limiter{}
 	var item int64
@@ -619,7 +644,7 @@ func c17EnumerateTCP(sh *evidence.Shard) {
 			if lim.ok(c.Template + "/" + r.clauseID) {
 				cc := *c
 				cc.Cuts = append([]int(nil), c.Cuts...)
-				sh.Violate(p.Name, c17TCPSig(c, r.clauseID), r.detail, &cc)
+				sh.Violate(p.Name, c17TCPSig(c, &r), r.detail, &cc)
 			} else {
 				p.Count("further_violations_not_recorded", 1)
 			}
@@ -633,12 +658,12 @@ func c17EnumerateTCP(sh *evidence.Shard) {
 		}
 		n := len(t.Data)
 		for _, cfg := range c17Configs() {
-			base := c17TCPCase{Template: t.Name, Data: t.Data, ExpHost: t.ExpHost, NeedLen: t.NeedLen, FireAt: -1,
+			base := c17TCPCase{Template: t.Name, Data: t.Data, ExpHost: t.ExpHost, NeedLen: t.NeedLen, Either: t.Either, FireAt: -1,
 				Filter: cfg.Filter, RD: cfg.RD, Addr: net.JoinHostPort(cfg.Host, t.Port)}
 			wantHooked := c17WantHooked(&base)
-			maxCuts := 2
-			if !cfg.Primary && !th {
-				maxCuts = 1
+			maxCuts := cutsOther
+			if cfg.Primary {
+				maxCuts = cutsPrimary
 			}
 			if t.Heavy {
 				maxCuts = 1
@@ -677,6 +702,16 @@ func c17EnumerateTCP(sh *evidence.Shard) {
 					r := run1(&c)
 					if !wantHooked {
 						continue
+					}
+					if len(cuts) == 0 && end == c17EndEOF && t.ExpHost != "" && !t.Either && r.clauseID == "" && !r.rewrote {
+						// non-vacuity: the complete, unsplit, undelayed template must be recognised
+						sh.InfraError("template %s: the complete stream was not recognised by the sniffer (consumed %d of %d bytes, need %d): the destination clause would be vacuous", t.Name, r.pos, n, t.NeedLen)
+					}
+					if item%5003 == 7 && end == c17EndBlock {
+						cs := c
+						cs.Data = nil
+						cs.Cuts = append([]int(nil), cuts...)
+						p.Sample(&cs)
 					}
 					for k := 0; k < r.reads; k++ {
 						for _, wd := range []bool{false, true} {
